@@ -144,7 +144,12 @@ def run(model: Model, rep: Report, tier: str) -> None:
         rep.proven("R20.3", cons, loc=loc(fc))
     # ---------------------------------------------------------------- R20.4
     eff = Effects(model)
-    for q in (f"{SS}.are_sigma_separated", f"{NXMG}.disorient", f"{SS}.get_equivalence_classes"):
+    # the public test, the flat graph, the equivalence classes -- and every predicate of the module: a triple / path predicate that edits
+    # the equivalence classes or the conditioning set it is handed makes later paths of the SAME query see different data (verdict depends
+    # on path order, symmetry is lost)
+    qs = [f"{SS}.are_sigma_separated", f"{NXMG}.disorient", f"{SS}.get_equivalence_classes"]
+    qs += sorted(fn_.qname for fn_ in model.funcs_in_module(SS) if fn_.cls is None and fn_.qname not in qs)
+    for q in qs:
         f = model.func(q)
         sm = eff.summary(f)
         if sm.mutates:
